@@ -65,9 +65,15 @@ Section Pub.
   Proof. induction ids as [|t r IH]; intros m; cbn [fold_left]; [reflexivity|]. rewrite IH, N2Nat.inj_max. reflexivity. Qed.
 
   (* the loop that stores, without hash; iv: the indirect vector is filled alongside when the facet is there *)
-  Definition body_store : pstmt :=
-    QSeq (QSetIndex XCurId) (QSeq (QIfFacet PTypeHash (QSetIndex (XHash XIndex)) QSkip)
-         (QSeq (QStoreVptr XIndex) (QIfFacet PIndirect (QStoreIndirect XIndex) QSkip))).
+  (* the body of the loop that stores the v-table pointers: the last `for` over the ids in the translated publish_vptrs *)
+  Fixpoint last_forids (p : pstmt) : option pstmt :=
+    match p with
+    | QSeq a b => match last_forids b with Some x => Some x | None => last_forids a end
+    | QIfFacet _ t e => match last_forids e with Some x => Some x | None => last_forids t end
+    | QForIds body => Some body
+    | _ => None
+    end.
+  Definition body_store : pstmt := match last_forids gen_vector_publish with Some b => b | None => QSkip end.
 
   Lemma store_ids vp ids ii : forall s, exists ix,
     ids_loop false ii checked dyn_id vp ids body_store s
@@ -76,7 +82,7 @@ Section Pub.
   Proof.
     induction ids as [|t r IH]; intros s; cbn [ids_loop vec_set_ids].
     - exists (q_index s). destruct s, ii; reflexivity.
-    - unfold body_store at 1. cbn [qbody xeval pbind has snd fst with_index with_vptrs with_ivptrs q_index q_vptrs q_ivptrs q_size q_hst q_attempts q_map].
+    - unfold body_store at 1. cbn [last_forids gen_vector_publish qbody xeval pbind has snd fst with_index with_vptrs with_ivptrs q_index q_vptrs q_ivptrs q_size q_hst q_attempts q_map].
       destruct ii; cbn [qbody xeval pbind with_index with_vptrs with_ivptrs q_index q_vptrs q_ivptrs q_size q_hst q_attempts q_map];
         match goal with |- context [ids_loop _ _ _ _ _ _ _ ?s1] => destruct (IH s1) as [ix E]; rewrite E end;
         exists ix; cbn [q_size q_hst q_attempts q_vptrs q_ivptrs q_map]; rewrite !set_nth_same; reflexivity.
@@ -101,7 +107,7 @@ Section Pub.
     = POk (mk_pstate sz ix (q_hst s) (q_attempts s) (vec_publish classes (q_vptrs s))
                      (if ii then vec_publish classes (q_ivptrs s) else q_ivptrs s) (q_map s)).
   Proof.
-    unfold gen_vector_publish. fold body_store.
+    unfold gen_vector_publish.
     cbn [qexec has pbind qbody xeval with_size].
     rewrite max_classes. cbn [pbind qexec qbody xeval with_size q_size].
     set (mx := fold_left N.max (all_ids classes) 0).
@@ -109,7 +115,7 @@ Section Pub.
     { unfold vec_size, mx. rewrite N2Nat.inj_add, fold_max_nat. change (N.to_nat 1) with 1%nat. change (N.to_nat 0) with 0%nat.
       unfold all_pids, all_ids. rewrite Nat.add_1_r. reflexivity. }
     destruct ii; cbn [pbind qexec qbody xeval has with_vptrs with_ivptrs with_size q_size q_vptrs q_ivptrs q_index q_hst q_attempts q_map];
-      match goal with |- context [classes_loop _ ?i _ _ _ _ ?s1] => destruct (store_classes i classes s1) as [ix E]; rewrite E end;
+      match goal with |- context [classes_loop _ ?i _ _ _ ?b ?s1] => change b with body_store; destruct (store_classes i classes s1) as [ix E]; rewrite E end;
       exists (mx + 1), ix; cbn [q_size q_hst q_attempts q_vptrs q_ivptrs q_map]; rewrite Esz; reflexivity.
   Qed.
 
@@ -129,7 +135,7 @@ Section Pub.
     induction ids as [|t r IH]; intros s; cbn [ids_loop publish_ids].
     - exists (q_index s), (q_ivptrs s). destruct s; reflexivity.
     - destruct s as [sz ix0 hst att v iv m]. unfold body_store at 1 3.
-      cbn [qbody xeval pbind has snd fst with_index with_vptrs with_ivptrs q_index q_vptrs q_ivptrs q_size q_hst q_attempts q_map].
+      cbn [last_forids gen_vector_publish qbody xeval pbind has snd fst with_index with_vptrs with_ivptrs q_index q_vptrs q_ivptrs q_size q_hst q_attempts q_map].
       destruct (lookup checked hst t) as [i|[u]];
         cbn [qbody xeval pbind has snd fst with_index with_vptrs with_ivptrs q_index q_vptrs q_ivptrs q_size q_hst q_attempts q_map];
         [|reflexivity].
@@ -177,13 +183,13 @@ Section Pub.
     to_pub (qexec true ii checked stream budget classes dyn_id gen_vector_publish (pstate_of st v iv m))
     = publish_vptrs checked stream budget st v classes.
   Proof.
-    unfold gen_vector_publish, publish_vptrs, pstate_of. fold body_store.
+    unfold gen_vector_publish, publish_vptrs, pstate_of.
     cbn [qexec has pbind q_hst].
     destruct (hash_initialize checked stream budget st classes) as [st' n|n b st'|]; cbn [pbind to_pub]; try reflexivity.
     cbn [qexec qbody xeval pbind has with_size with_vptrs with_ivptrs q_size q_vptrs q_ivptrs q_index q_hst q_attempts q_map].
     destruct ii; cbn [qexec qbody xeval pbind has with_size with_vptrs with_ivptrs q_size q_vptrs q_ivptrs q_index q_hst q_attempts q_map];
       unfold with_size, with_vptrs, with_ivptrs; cbn [q_size q_vptrs q_ivptrs q_index q_hst q_attempts q_map];
-      match goal with |- context [classes_loop _ ?i _ _ _ _ ?s1] => pose proof (store_classes_hash i classes s1) as H end;
+      match goal with |- context [classes_loop _ ?i _ _ _ ?b ?s1] => change b with body_store; pose proof (store_classes_hash i classes s1) as H end;
       cbn [q_size q_hst q_attempts q_vptrs q_ivptrs q_map] in H;
       destruct (publish_classes checked st' classes (resize (N.to_nat (h_length st')) v None)) as [v'|[u]];
       [destruct H as (ix & iv' & E); rewrite E; reflexivity | rewrite H; reflexivity
